@@ -218,3 +218,109 @@ def certificates(ck, seed, nprog, budgets, switches):
 def json_key(x):
     import json
     return json.dumps(x, sort_keys=True)
+
+
+def run_c15(ck):
+    quick = ck.tier == "quick"
+    rng = random.Random(ck.seed + 15)
+    r = common.tlc("MC_Symbols", "MC_Symbols.cfg" if quick else "MC_Symbols_thorough.cfg", ck.wd, workers=8, timeout=1500)
+    ck.add_tlc(r)
+    ck.extra["mc"] = [{"module": "MC_Symbols", "states": r.distinct, "ok": r.ok}]
+    if not r.ok:
+        ck.violation("MC:MC_Symbols:" + str(r.violated), r.out[-2500:], {"tlc": r.out[-6000:]})
+    n = 2500 if quick else 60000
+    progs = [genasm.gen_symbol_program(rng) for _ in range(n)]
+    jobs = [{"mode": "asm", "files": {"main.asm": genasm.render_program(P)}, "roots": ["main.asm"],
+             "want": {"messages": False, "spans": False, "events": False}} for P in progs]
+    results = common.run_jobs(jobs, ck.wd + "/jobs")
+    ck.evaluations += len(jobs)
+    events = []
+    stats = {"accepted": 0, "rejected": 0}
+    for i, (P, r) in enumerate(zip(progs, results)):
+        if r.get("crash") or r.get("panic"):
+            ck.violation("panic:%s@%s" % (str(r.get("panic") or r.get("crash"))[:60], r.get("panic_at", "")),
+                         {"source": jobs[i]["files"]["main.asm"][:800]}, {"job": jobs[i]})
+            continue
+        o = observe(r)
+        stats["accepted" if o["ok"] else "rejected"] += 1
+        events.append({"ev": "asm", "case": i, "prog": P, "obs": [o]})
+        if i % 500 == 0:
+            ck.sample({"source": jobs[i]["files"]["main.asm"], "accepted": o["ok"], "symbols": o["syms"][:8]}, limit=4)
+    ck.extra["observed"] = stats
+    # moving an address-free global constant changes nothing (judged like a re-rendering)
+    moved = []
+    for i, P in enumerate(progs):
+        Q = genasm.move_free_constant(rng, P)
+        if Q is not None:
+            moved.append((i, Q))
+    mjobs = [{"mode": "asm", "files": {"main.asm": genasm.render_program(Q)}, "roots": ["main.asm"],
+              "want": {"messages": False, "spans": False, "events": False}} for _, Q in moved]
+    mres = common.run_jobs(mjobs, ck.wd + "/moved") if mjobs else []
+    ck.evaluations += len(mjobs)
+    base = len(progs)
+    for k, ((i, Q), r) in enumerate(zip(moved, mres)):
+        if r.get("crash") or r.get("panic") or results[i].get("crash") or results[i].get("panic"):
+            continue
+        events.append({"ev": "asm7", "case": base + k, "progs": [progs[i], Q], "obs": [observe(results[i]), observe(r)]})
+        jobs.append(mjobs[k])
+        progs.append(Q)
+        results.append(r)
+    ck.extra["moved_constant_pairs"] = len(moved)
+    failed = tv.judge(ck, "TraceAsm", "TraceAsm.cfg", events, ck.wd, tag="sym", shard=400, timeout=2400)
+    ck.traces += len(events)
+    for case in sorted(failed):
+        for tag in sorted(set(failed[case])):
+            ck.violation("TraceAsm:C15:" + tag, {"verdict": tag, "source": jobs[case]["files"]["main.asm"],
+                                                 "observed_ok": not results[case].get("error"),
+                                                 "symbols": observe(results[case])["syms"]},
+                         {"job": jobs[case], "prog": progs[case], "spec": "TraceAsm"})
+    skipped = sum(v for kk, v in ck.extra.items() if kk.startswith("skipped:"))
+    ck.nontrivial = set(range(len(events) - skipped))
+    ck.assumptions += ["every symbol declaration (label or constant) opens a nesting scope, as the repository's tests pin (DESIGN.md section 7)",
+                       "references are observed through `#d16 <ref>` (bits) and through the final symbol values"]
+    return ck.finish(rule="random declaration sequences (labels and constants, levels 0..3, names a/b/c reused under different parents, rare skipped "
+                          "levels and duplicates) with references from every position at every dot-level and dotted path, forward references from "
+                          "the top, constants defined through other symbols; distinct = program index")
+
+
+def run_c16(ck):
+    quick = ck.tier == "quick"
+    rng = random.Random(ck.seed + 16)
+    n = 2500 if quick else 60000
+    cases = [genasm.gen_cond_program(rng) for _ in range(n)]
+    jobs = [{"mode": "drive", "files": {"main.asm": genasm.render_items(P["items"])},
+             "args": ["customasm", "main.asm", "-q", "-f", "binary", "-o", "out.bin"] + argv,
+             "want": {"messages": False, "spans": False, "events": False}} for P, argv in cases]
+    results = common.run_jobs(jobs, ck.wd + "/jobs")
+    ck.evaluations += len(jobs)
+    events = []
+    stats = {"accepted": 0, "rejected": 0}
+    for i, ((P, argv), r) in enumerate(zip(cases, results)):
+        if r.get("crash") or r.get("panic"):
+            ck.violation("panic:%s@%s" % (str(r.get("panic") or r.get("crash"))[:60], r.get("panic_at", "")),
+                         {"source": jobs[i]["files"]["main.asm"][:800], "args": argv}, {"job": jobs[i]})
+            continue
+        if not r.get("drive_ok"):
+            o = {"ok": False, "bits": [], "syms": []}
+        else:
+            o = observe(r)
+        stats["accepted" if o["ok"] else "rejected"] += 1
+        events.append({"ev": "cond", "case": i, "prog": P, "obs": [o]})
+        if i % 500 == 0:
+            ck.sample({"source": jobs[i]["files"]["main.asm"], "defines": argv, "accepted": o["ok"], "bits": r.get("bits", "")[:64]}, limit=4)
+    ck.extra["observed"] = stats
+    failed = tv.judge(ck, "TraceAsm", "TraceAsm.cfg", events, ck.wd, tag="cond", shard=400, timeout=2400)
+    ck.traces += len(events)
+    for case in sorted(failed):
+        for tag in sorted(set(failed[case])):
+            ck.violation("TraceAsm:C16:" + tag, {"verdict": tag, "source": jobs[case]["files"]["main.asm"], "defines": cases[case][1],
+                                                 "observed_ok": bool(results[case].get("drive_ok")),
+                                                 "bits": results[case].get("bits", "")[:160]},
+                         {"job": jobs[case], "prog": cases[case][0], "spec": "TraceAsm"})
+    skipped = sum(v for kk, v in ck.extra.items() if kk.startswith("skipped:"))
+    ck.nontrivial = set(range(len(events) - skipped))
+    ck.assumptions += ["every item of every arm carries a distinct marker byte, so content leaking from an unselected arm shows in the bits",
+                       "defines are passed on the command line through driver::drive (-dNAME, -dNAME=true|false|number)"]
+    return ck.finish(rule="random condition trees (depth <= 3, #elif chains, conditions over constants declared before / after / inside other arms, "
+                          "undecidable conditions over labels) x random defines (absent, booleans, 0, 1, -1, 16, hierarchical names, undeclared names); "
+                          "distinct = program index")
